@@ -172,7 +172,12 @@ def random_controls(rng, d, nsteps, dt, start_time, n_controls, kinds,
             sup = random_superop(rng, d, kind)
             if as_float:
                 # the same float key so that stacking order is well defined
-                tkey = start_time + (step + 0.23) * dt
+                # a bit after, a bit before, or (as a decimal literal) on
+                # the grid time of the step
+                off = [0.23, -0.31, 0.0][n % 3]
+                tkey = start_time + (step + off) * dt
+                if off == 0.0:
+                    tkey = float(repr(round(tkey, 10)))
                 ctrl.add_single(float(tkey), sup, post=is_post)
                 spec = ("float", float(tkey))
             else:
